@@ -28,6 +28,8 @@ RULE = (
     "empty result expected). Distinct = distinct case hash; non-trivial = "
     "batch_size >= 2 and the availability matrix is neither all-true nor "
     "all-false, or a candidate row without available annotator exists.")
+RULE += (" Further generated dimensions (added while closing seeded "
+         "changes): " + 'availability as bool or 0/1 integer matrix; annotator performances on large scales / float32; array-likes as nested lists' + ".")
 ASSUMPTIONS = [
     "missing_label is NaN, classes are 0..K-1 (encodings are C09)",
     "index candidates are sorted and unique whenever a row-aligned argument "
